@@ -316,12 +316,15 @@ func (s *Sim) park(t *Task) {
 	raceEnable()
 }
 
+// TraceDepth is the number of stack frames recorded per trace line.
+var TraceDepth = 6
+
 func caller(skip int) string {
-	var pcs [10]uintptr
+	var pcs [48]uintptr
 	n := runtime.Callers(skip, pcs[:])
 	fr := runtime.CallersFrames(pcs[:n])
 	out := ""
-	for i := 0; i < 6; i++ {
+	for i := 0; i < TraceDepth; i++ {
 		f, more := fr.Next()
 		if !strings.Contains(f.Function, "verifsim/sim") {
 			out += fmt.Sprintf("%s:%d<", f.Function[strings.LastIndex(f.Function, "/")+1:], f.Line)
@@ -641,6 +644,11 @@ func Start(t *Task) {
 	S.park(t)
 }
 
+// PanicHook, if set, is asked about a panic that reached the top of a task. If
+// it returns true the panic is considered handled (the harness turned it into
+// a crash of the task's incarnation) and the task simply ends.
+var PanicHook func(t *Task, r any) bool
+
 // Exit ends a task. It must be deferred directly (`defer simrt.Exit(t)`) so
 // that it can recover a panic of the task body.
 func Exit(t *Task) {
@@ -649,6 +657,10 @@ func Exit(t *Task) {
 	}
 	s := S
 	if r := recover(); r != nil {
+		if s != nil && PanicHook != nil && PanicHook(t, r) {
+			exit2(s, t)
+			return
+		}
 		if s != nil {
 			s.fail("panic", fmt.Sprintf("panic in task %d (%s): %v\n%s", t.ID, t.Kind, r, debug.Stack()))
 		}
